@@ -311,7 +311,7 @@ def func_item(item):
     N = int(round(nseg * nxseg))
     S = len(comp)
     variants = [(g, False) for g in gain_vectors(S, walk)]
-    if walk != "two":
+    if walk != "two" and (thorough or nxseg == 64):
         # setups cut from different stretches of a longer recording: only the general relations (ii), (iii) apply
         variants += [(g, True) for g in gain_vectors(S, "two")]
     base = {}
@@ -419,6 +419,8 @@ def class_item(item):
                     cols[pos] = next(rest)         # roving channels fill the other positions in order
             datasets.append(g * X[:, cols])
         for cls in CLASSES:
+            if cls == "pLSCF_MS" and not thorough and idx % 3:
+                continue                    # quick: the (slow) pLSCF_MS run on every third (layout, placement) point
             t.states += 1
             case = {"part": "class", "cfg": [idx, list(layout[:2]) + [list(comp)], [list(p) for p in place], method, nxseg, pov, nseg],
                     "gains": list(gains), "staggered": stagger, "class": cls, "seed": seed}
@@ -510,12 +512,12 @@ def explore(ctx):
         "function_route": {"items": len(F), "methods": ["per", "cor"], "nxseg": sorted({c[3] for c in F}), "pov": list(POVS),
                            "length_in_segments": [4, 6.5], "gains": list(GAINS),
                            "note": func_lattice.__doc__,
-                           "different_records": "items with the full/reduced gain walk are repeated with the setups cut from consecutive stretches of a "
+                           "different_records": "items with the full/reduced gain walk (quick: nxseg 64 only) are repeated with the setups cut from consecutive stretches of a "
                                                 "longer recording (all ones + one mixed gain vector): relations (ii) and (iii) only",
                            "gain_walks": {"full": "gains^setups (<= 3 setups)", "reduced(3 setups)": [list(v) for v in gain_vectors(3, "reduced")],
                                           "two(3 setups)": [list(v) for v in gain_vectors(3, "two")]},
                            "walk_by_item": {w: sum(1 for c in F if c[6] == w) for w in ("full", "reduced", "two")}},
-        "class_route": {"items": len(C), "classes": list(CLASSES), "nxseg": [64], "method_x_pov": sorted({(c[3], c[5]) for c in C}),
+        "class_route": {"items": len(C), "classes": list(CLASSES), "classes_note": "quick: pLSCF_MS on every third (layout, placement) point", "nxseg": [64], "method_x_pov": sorted({(c[3], c[5]) for c in C}),
                         "length_in_segments": [4.5], "variants": ["all ones", "gains (3, 1e-3, 1, ...)", "same gains, setups cut from different stretches of a longer recording (>= 2 references)"],
                         "placements": "full product of all ordered placements when every setup has <= 4 channels and the product is <= "
                                       + ("300" if ctx.thorough else "40") + "; else a covering set (leading, trailing, trailing reversed, "
